@@ -534,7 +534,11 @@ impl<'tcx> Cx<'tcx> {
         let tcx = self.tcx;
         let d = ld.to_def_id();
         let kind = tcx.def_kind(d);
-        let body: &'tcx Body<'tcx> = tcx.optimized_mir(d);
+        let body: &'tcx Body<'tcx> = if matches!(kind, DefKind::Const { .. } | DefKind::AssocConst { .. } | DefKind::Static { .. }) {
+            tcx.mir_for_ctfe(d)
+        } else {
+            tcx.optimized_mir(d)
+        };
         let env = TypingEnv::post_analysis(tcx, d);
         self.cur = Some(&body.local_decls);
         let mut v: Vec<(&'static str, J)> = vec![
@@ -985,6 +989,15 @@ pub fn dump_crate<'tcx>(tcx: TyCtxt<'tcx>) -> String {
         if matches!(tcx.def_kind(d), DefKind::Fn | DefKind::AssocFn | DefKind::Closure) {
             lines.push(cx.body_j(ld).to_string());
             n_bodies += 1;
+        } else if matches!(tcx.def_kind(d), DefKind::Const { .. } | DefKind::AssocConst { .. }) {
+            // named constants (tables such as `const HAND_BUTTERFLY_LENS: [usize; 13]`): CTFE MIR
+            if tcx.hir_maybe_body_owned_by(ld).is_some() && tcx.generics_of(d).count() == 0 {
+                let mut j = cx.body_j(ld);
+                if let J::Obj(ref mut v) = j {
+                    v[0] = ("rec", J::s("constbody"));
+                }
+                lines.push(j.to_string());
+            }
         }
     }
 
